@@ -393,6 +393,19 @@ func rulesC01(w *World, o *Out) {
 		}
 		return "", false
 	}
+	// pending transfers name their token by contract: the contract -> denom entry they are refunded and
+	// burned through is written, never removed (a rebinding that drops the old entry strands them)
+	o.Rule("C01.R11", "the contract -> denom index that pending pool entries and batches are resolved through is only ever written: no production code deletes an entry of it")
+	nBind := 0
+	for _, m := range muts {
+		if !m.Has("call:x/skyway/types.GetERC20ToDenomKey") || strings.HasPrefix(m.Op, "bank:") {
+			continue
+		}
+		nBind++
+		o.Check("C01.R11", w.FuncKey(TopFunc(m.Site.Fn))+"|"+m.Op+" of a contract -> denom entry", m.Op != "Delete", w.Pos(m.Site.Instr.Pos()),
+			"a transfer pooled or batched under the contract can no longer be refunded or burned once the entry is gone (its denomination cannot be found)")
+	}
+	o.Count("C01.R11 writers of the contract -> denom index", nBind, 1)
 	direct := map[*ssa.Function][]Mut{}
 	nSites := 0
 	for _, m := range muts {
